@@ -72,6 +72,21 @@ def tunnel_scenarios(tier):
                             script = [('send', CONNECT), ('wait_recv', len(ACK))]
                             script += [('send', p) for p in cp]
                             script += [('wait_recv', len(ACK) + len(u2c)), ('wait_idle',), ('close',)]
+                            if cp and ui == 0:
+                                # variant: the client does not wait for the ack -- its first tunnel bytes
+                                # travel in the same segment as the end of the CONNECT request
+                                early = [('send', CONNECT + cp[0])] + [('send', p) for p in cp[1:]] + \
+                                    [('wait_recv', len(ACK) + len(u2c)), ('wait_idle',), ('close',)]
+                                ebeh = (lambda up=up: RawOrigin(greeting=up)) if origin_first else \
+                                    (lambda up=up, n=len(c2u): RawOrigin(after={n: up}))
+                                out.append(Scenario(
+                                    'tunnel-early/%s/%s>%s/%s<%s/%s' % (fname, cn, pkname(cp), un, pkname(up),
+                                                                      'of' if origin_first else 'cf'),
+                                    ['--threadless'] + fl, mode='local', clients=[dict(script=early)],
+                                    origins={('10.0.0.2', 443): ebeh}, dns={'t.test': '10.0.0.2'},
+                                    kinds='ARS', horizon=3000,
+                                    features={'role': 'tunnel', 'flags': fname, 'c2u': c2u, 'u2c': u2c, 'early_data': True,
+                                              '_expect_c': ACK + u2c, '_expect_u': c2u}))
                             if origin_first:
                                 beh = (lambda up=up: RawOrigin(greeting=up))
                             else:
